@@ -110,6 +110,10 @@ reg = {
         # begin_write over models of its callees
         "beginwrite": {"overlay": "units/beginwrite.ovl", "canaries": ["canary_beginwrite"],
                        "helpers": ["from", "start_write_transaction", "new_write", "new", "check_io_errors", "allocator_state_loaded"]},
+        # the decision whether an open may trust the saved allocator state
+        "openstate": {"overlay": "units/openstate.ovl", "canaries": ["canary_openstate"],
+                      "helpers": ["into_storage_error_or_corrupted", "untracked", "new", "clone", "used_two_phase_commit", "get_system_root",
+                                  "is_valid_allocator_state", "get_table"]},
         "types_sep": {"overlay": "units/types_sep.ovl", "canaries": ["canary_types_sep"], "helpers": ["common_prefix_len"]},
         # the page-level checksum walk over an abstract page store
         "merkle": {"overlay": "units/merkle.ovl", "canaries": ["canary_merkle"],
@@ -288,9 +292,10 @@ P["C11"] = {
                                               "TransactionalMemory::mark_page_allocated", "TransactionalMemory::reset_allocator_state", "TransactionalMemory::check_page_order",
                                               "InMemoryState::get_region_mut", "Mutex::lock"]},
               {"unit": "txcommit", "functions": ["WriteTransaction::abort_inner"]},
-              {"unit": "beginwrite", "functions": ["begin_write_with_allocation_policy"]}],
+              {"unit": "beginwrite", "functions": ["begin_write_with_allocation_policy"]},
+              {"unit": "openstate", "functions": ["Database::get_allocator_state_table"]}],
     "kani": [K["C11-R3"]],
-    "explanation": "Kernel: rebuild = reset + one mark per reachable page. The REAL TransactionalMemory::reset_allocator_state leaves an allocator state that matches the header's layout with EVERY page free (Allocators::new, BuddyAllocator::new: greedy decomposition, lemma_greedy_all_free); the REAL TransactionalMemory::mark_page_allocated accepts a page number only if it names a block inside an existing region of the layout that was entirely free, then exactly its pages stop being free, every other region is untouched and the state stays consistent with the header; a refused page number (order > 20, region or block out of range, overlap with an allocated page) changes no allocator; the REAL WriteTransaction::abort_inner keeps the repair latch set when the rollback fails part way (its pages stay allocated, so the allocator state is never persisted as clean) and restores it after a complete rollback. record_alloc marks exactly the named block (true iff the block lay inside a free block, which it then no longer does, every other page keeps its state) or refuses with the allocator unchanged, I1 and I2 preserved; (R4) Allocators::resize_to - the reconciliation of a loaded allocator state with the layout of the file being opened - gives every region the size the layout says, keeps wf and TRK, marks dropped regions full and leaves unchanged regions untouched (BuddyAllocator::resize verified; only highest_free_order assumed); the allocator-state key codec orders Region(i) by i and before the tracker and the transaction id, which the snapshot loader's range scans rely on.",
+    "explanation": "Kernel: (O) the REAL Database::get_allocator_state_table trusts a saved allocator state only when the primary commit was written with two-phase commit, the system tree of the primary holds the table, and the table is current (is_valid_allocator_state) - in every other case the open repairs; (R) rebuild = reset + one mark per reachable page. The REAL TransactionalMemory::reset_allocator_state leaves an allocator state that matches the header's layout with EVERY page free (Allocators::new, BuddyAllocator::new: greedy decomposition, lemma_greedy_all_free); the REAL TransactionalMemory::mark_page_allocated accepts a page number only if it names a block inside an existing region of the layout that was entirely free, then exactly its pages stop being free, every other region is untouched and the state stays consistent with the header; a refused page number (order > 20, region or block out of range, overlap with an allocated page) changes no allocator; the REAL WriteTransaction::abort_inner keeps the repair latch set when the rollback fails part way (its pages stay allocated, so the allocator state is never persisted as clean) and restores it after a complete rollback. record_alloc marks exactly the named block (true iff the block lay inside a free block, which it then no longer does, every other page keeps its state) or refuses with the allocator unchanged, I1 and I2 preserved; (R4) Allocators::resize_to - the reconciliation of a loaded allocator state with the layout of the file being opened - gives every region the size the layout says, keeps wf and TRK, marks dropped regions full and leaves unchanged regions untouched (BuddyAllocator::resize verified; only highest_free_order assumed); the allocator-state key codec orders Region(i) by i and before the tracker and the transaction id, which the snapshot loader's range scans rely on.",
     "not_decided": "which pages ARE reachable; is_valid_allocator_state's staleness comparison (needs a B-tree); histories and crash points; the tracker's persistent-savepoint pins rebuilt at open (register_persistent_savepoint: one pin per savepoint, also when several savepoints share a transaction) only BOUNDED (native C11-X-pins3)",
 }
 P["C15"] = {
